@@ -11,5 +11,12 @@ pub mod kax {
   pub assume_specification<'a, 'b, 'c, K, Q: ?Sized, V, S, A: std::alloc::Allocator>[ <HashMap<K, V, S, A> as core::ops::Index<&'a Q>>::index ](m: &'b HashMap<K, V, S, A>, k: &'c Q) -> (r: &'b V)
       where K: Eq + Hash + Borrow<Q>, Q: Eq + Hash, S: BuildHasher
       ensures obeys_key_model::<K>() && builds_valid_hashers::<S>() ==> contains_borrowed_key(m@, k) && maps_borrowed_key_to_value(m@, k, *r);
-  pub broadcast group key_models { ax_key_carrier, ax_key_service, ax_key_prodsource, ax_hm_index_req }
+  // A2: string-slice keys (`HashMap<&'static str, V>`, the table of regulatory factor sets): they obey the key model, and a lookup
+  // with a borrowed `&str` finds the entry stored under the equal string
+  pub broadcast proof fn ax_key_str() ensures #[trigger] vstd::std_specs::hash::obeys_key_model::<&'static str>() { admit(); }
+  pub broadcast proof fn ax_str_contains<V>(m: Map<&'static str, V>, k: &'static str)
+      ensures #[trigger] contains_borrowed_key::<&'static str, V, str>(m, k) == m.contains_key(k) { admit(); }
+  pub broadcast proof fn ax_str_value<V>(m: Map<&'static str, V>, k: &'static str, v: V)
+      ensures #[trigger] maps_borrowed_key_to_value::<&'static str, V, str>(m, k, v) == (m.contains_key(k) && m[k] == v) { admit(); }
+  pub broadcast group key_models { ax_key_carrier, ax_key_service, ax_key_prodsource, ax_hm_index_req, ax_key_str, ax_str_contains, ax_str_value }
 }
